@@ -20,7 +20,7 @@ RULE = ("(values, enumerated) every int16 value (all 65536, laid out over 16 AP 
 EXHAUSTIVE_NOTE = "all 65536 int16 values x the 4 SpikeGLX NP2 range/max-int pairs x 3 window sizes are enumerated"
 ASSUMPTIONS = ["small-channel NP2.4 recordings (acquired == saved channels) stand in for 384-channel ones: the converter "
                "depends on the metadata only (384-channel cases are also generated)"]
-BUDGET = {"quick": 480, "thorough": 5000}
+BUDGET = {"quick": 480, "thorough": 15000}
 SHRINK = {"quick": False, "thorough": True}
 PAIRS = [(0.5, 8192), (0.62, 2048), (0.62, 8192), (0.6, 512)]
 
